@@ -2,6 +2,7 @@
   C06 — builders and n-ary operators are insensitive to order, duplication and batching.
 -/
 import MocVerif.Lemmas.Builders
+import MocVerif.Lemmas.RangeBuilder
 
 namespace Moc.C06
 
@@ -36,6 +37,66 @@ theorem build_sem (sh cap : Nat) (cells : List Nat) :
   have n := normalize_spec (cells.map fun c => (c <<< sh, (c + 1) <<< sh))
   exact ⟨n.1, fun x => by rw [n.2, mem_map_cellRange]⟩
 
+/-- **Range builder** (`RangeMocBuilder`, `from_maxdepth_ranges`, hence `from_cells` and the time /
+    frequency range builders): for EVERY sequence of non-empty ranges and EVERY buffer capacity, the MOC
+    built is the normal form of the union of the pushed ranges degraded to the builder depth. -/
+theorem rangeBuilder_build (sh cap : Nat) (rs : List Rng) (hr : ∀ r ∈ rs, r.1 < r.2) :
+    fromMaxdepthRanges sh cap rs = normalize (rs.map (degradeRange sh)) :=
+  fromMaxdepthRanges_eq sh cap rs hr
+
+/-- Canonical, and a point is covered iff it shares its depth-`d` cell with a point of a pushed range. -/
+theorem rangeBuilder_sem (sh cap : Nat) (rs : List Rng) (hr : ∀ r ∈ rs, r.1 < r.2) :
+    Canon (fromMaxdepthRanges sh cap rs) ∧
+    ∀ x, mem x (fromMaxdepthRanges sh cap rs) ↔ ∃ r ∈ rs, ∃ y, r.1 ≤ y ∧ y < r.2 ∧ x / 2 ^ sh = y / 2 ^ sh := by
+  rw [rangeBuilder_build sh cap rs hr]
+  have n := normalize_spec (rs.map (degradeRange sh))
+  refine ⟨n.1, fun x => ?_⟩
+  rw [n.2, mem_iff_exists]
+  have hc : 0 < 2 ^ sh := Nat.pos_of_ne_zero (by simp)
+  constructor
+  · rintro ⟨q, hq, hx⟩
+    obtain ⟨r, hr', rfl⟩ := List.mem_map.1 hq
+    rw [degradeRange_eq] at hx
+    exact ⟨r, hr', (mem_degraded_range (2 ^ sh) hc r.1 r.2 x (hr r hr')).1 hx⟩
+  · rintro ⟨r, hr', hy⟩
+    refine ⟨degradeRange sh r, List.mem_map.2 ⟨r, hr', rfl⟩, ?_⟩
+    rw [degradeRange_eq]
+    exact (mem_degraded_range (2 ^ sh) hc r.1 r.2 x (hr r hr')).2 hy
+
+/-- Order-, duplication-, overlap- and capacity-invariance of the range builder: two sequences of ranges
+    covering the same points give the same MOC, whatever the two capacities. -/
+theorem rangeBuilder_perm (sh cap cap' : Nat) (a b : List Rng) (ha : ∀ r ∈ a, r.1 < r.2) (hb : ∀ r ∈ b, r.1 < r.2)
+    (h : ∀ y, mem y a ↔ mem y b) : fromMaxdepthRanges sh cap a = fromMaxdepthRanges sh cap' b := by
+  have sa := rangeBuilder_sem sh cap a ha
+  have sb := rangeBuilder_sem sh cap' b hb
+  refine Canon.ext sa.1 sb.1 (fun x => ?_)
+  rw [sa.2, sb.2]
+  constructor
+  · rintro ⟨r, hr, y, h1, h2, h3⟩
+    obtain ⟨q, hq, hy⟩ := (mem_iff_exists y b).1 ((h y).1 ((mem_iff_exists y a).2 ⟨r, hr, h1, h2⟩))
+    exact ⟨q, hq, y, hy.1, hy.2, h3⟩
+  · rintro ⟨r, hr, y, h1, h2, h3⟩
+    obtain ⟨q, hq, hy⟩ := (mem_iff_exists y a).1 ((h y).2 ((mem_iff_exists y b).2 ⟨r, hr, h1, h2⟩))
+    exact ⟨q, hq, y, hy.1, hy.2, h3⟩
+
+/-- `from_cells`: (depth, cell) pairs are pushed as ranges; the result covers exactly the depth-`d` cells
+    meeting one of the given cells. -/
+theorem fromCells_sem (sh cap : Nat) (cells : List (Nat × Nat)) (x : Nat) :
+    mem x (fromCells sh cap cells) ↔
+      ∃ c ∈ cells, ∃ y, c.2 <<< c.1 ≤ y ∧ y < (c.2 + 1) <<< c.1 ∧ x / 2 ^ sh = y / 2 ^ sh := by
+  unfold fromCells
+  have hne : ∀ r ∈ cells.map (fun c => (c.2 <<< c.1, (c.2 + 1) <<< c.1)), r.1 < r.2 := by
+    intro r hr
+    obtain ⟨c, _, rfl⟩ := List.mem_map.1 hr
+    exact shl_lt_shl c.1 c.2 (c.2 + 1) (Nat.lt_succ_self _)
+  rw [(rangeBuilder_sem sh cap _ hne).2]
+  constructor
+  · rintro ⟨r, hr, hy⟩
+    obtain ⟨c, hc, rfl⟩ := List.mem_map.1 hr
+    exact ⟨c, hc, hy⟩
+  · rintro ⟨c, hc, hy⟩
+    exact ⟨_, List.mem_map.2 ⟨c, hc, rfl⟩, hy⟩
+
 /-- **N-ary operators** (`kway_or/and/xor` and `_it` variants): for every list of canonical MOCs — of
     ANY length, so whatever the 4-by-4 grouping and its recursion do — the result is the left fold of
     the binary operator (empty list ↦ `(0, ∅)`, one element ↦ itself). -/
@@ -52,5 +113,6 @@ example : ∀ m ∈ ([(2, [(0, 4)]), (1, [(8, 12)]), (3, [(2, 9)]), (0, []), (2,
   simp at hm
   rcases hm with rfl | rfl | rfl | rfl | rfl <;> decide
 example : cellsToRanges 2 [0, 1, 2, 2, 5] = [(0, 12), (20, 24)] := by decide
+example : ∀ r ∈ ([(9, 10), (1, 3), (2, 6), (30, 31)] : List Rng), r.1 < r.2 := by decide
 
 end Moc.C06
